@@ -1189,6 +1189,7 @@ func (ctx Ctx) indexExpr(e *ast.IndexExpr, isSpecial bool) coq.CallExpr {
 func (ctx Ctx) derefExpr(e ast.Expr) coq.Expr {
 	info, ok := ctx.getStructInfo(ctx.typeOf(e))
 	if ok && info.throughPointer {
+		ctx.dep.addDep(info.name)
 		return coq.NewCallExpr(coq.GallinaIdent("struct.load"),
 			coq.StructDesc(info.name),
 			ctx.expr(e))
@@ -1687,6 +1688,7 @@ func (ctx Ctx) refExpr(s ast.Expr) coq.Expr {
 		} else {
 			structExpr = ctx.refExpr(s.X)
 		}
+		ctx.dep.addDep(info.name)
 		return coq.NewCallExpr(coq.GallinaIdent("struct.fieldRef"), coq.StructDesc(info.name),
 			coq.GallinaString(fieldName), structExpr)
 	// TODO: should move support for slice indexing here as well
@@ -1741,6 +1743,7 @@ func (ctx Ctx) assignFromTo(s ast.Node,
 	case *ast.StarExpr:
 		info, ok := ctx.getStructInfo(ctx.typeOf(lhs.X))
 		if ok && info.throughPointer {
+			ctx.dep.addDep(info.name)
 			return coq.NewAnon(coq.NewCallExpr(coq.GallinaIdent("struct.store"),
 				coq.StructDesc(info.name),
 				ctx.expr(lhs.X),
@@ -1774,6 +1777,7 @@ func (ctx Ctx) assignFromTo(s ast.Node,
 		}
 		if ok {
 			fieldName := lhs.Sel.Name
+			ctx.dep.addDep(info.name)
 			return coq.NewAnon(coq.NewCallExpr(coq.GallinaIdent("struct.storeF"),
 				coq.StructDesc(info.name),
 				coq.GallinaString(fieldName),
